@@ -60,6 +60,17 @@ theorem store_history (vs : List Vaa) (hs : ∀ v ∈ vs, v.sigs ≠ []) (st : S
 theorem store_unsigned_panics (st : Store) (v : Vaa) (h : v.sigs = []) : storeSignedVAA st v = .panic := by
   simp [storeSignedVAA, h]
 
+/-- `StoreSignedVAA` reports success only with the entry written: key of the VAA's identifier, value `Marshal(v)` (what C16's
+acknowledgement refers to). -/
+theorem store_ok_written (st st' : Store) (v : Vaa) (h : storeSignedVAA st v = .ok st') :
+    v.sigs ≠ [] ∧ getSignedVAABytes st' v.body.id = some (marshal v) := by
+  unfold storeSignedVAA at h
+  split at h
+  · cases h
+  · rename_i hs
+    cases h
+    exact ⟨by intro e; apply hs; simp [e], by simp [getSignedVAABytes, get_put]⟩
+
 /-- After ANY history of stores, a lookup returns exactly the bytes stored last under that identifier, and not-found
 if nothing was ever stored under it. -/
 theorem get_exact (h : List Put) (hok : ∀ p ∈ h, IdOK p.1) (id : VaaId) (hid : IdOK id) :
@@ -348,5 +359,14 @@ example : getSignedVAABytes (run (putsOf hist)) ⟨13, addrA, 25, 3⟩ = none :=
 example : govWanted (putsOf hist) 13 addrA [3, 9] ⟨255, 9, marshal (mk 255 9 [4])⟩ :=
   ⟨⟨13, addrA, 255, 9⟩, rfl, rfl, rfl, rfl, by decide, by decide⟩
 example : unhexChars (hexChars addrA) = some addrA ∧ addrA.length = 32 := ⟨unhexChars_hexChars _, by decide⟩
+example : storeAll [] hist = .ok (run (putsOf hist)) := store_history hist (by decide) []
+example : ∃ out, govBatch (run (putsOf hist)) 13 addrA [3, 9] = some out ∧ ∀ g, g ∈ out ↔ govWanted (putsOf hist) 13 addrA [3, 9] g :=
+  gov_batch_spec hist (by decide) 13 addrA (by decide) [3, 9]
+example : rpcGetSignedVAA (run (putsOf hist)) true ((13 : Nat) : Int) (hexChars addrA) ((25 : Nat) : Int) 7 = .ok (marshal (mk 25 7 [2])) := by
+  rw [rpc_get_exact _ (by decide) 13 25 7 (by decide) (by decide) _ addrA (unhexChars_hexChars _) (by decide)]; rfl
+example : (findMissingMessages (run (putsOf hist)) 13 (hexChars addrA) 2).toOption.map (fun r => (r.missing.length, r.first, r.last)) = some (2, 0, 3) := by
+  rw [fmm_spec hist (by decide) 13 2 (by decide) (by decide) _ addrA (unhexChars_hexChars _) (by decide)]; decide
+example : findGap (run (putsOf hist)) 13 addrA 2 = findGap (run (putsOf [mk 2 0 [1], mk 2 3 [3], mk 2 3 [5]])) 13 addrA 2 :=
+  gap_unaffected _ _ (by decide) (by decide) ⟨13, addrA, 2⟩ (by decide) (by decide)
 
 end Whv.C12
